@@ -844,6 +844,63 @@ func ruleTabQual(c *Ctx, r *Rep) {
 			}
 		}
 	}
+	// the same table as a function from the access method to its OID: constants returned under case labels; the
+	// result must then be what is marshalled
+	if !found && am != nil {
+		for _, fn := range c.Funcs {
+			if fn.Signature.Results().Len() == 0 || !isOID(fn.Signature.Results().At(0).Type()) {
+				continue
+			}
+			hasParam := false
+			for _, p := range fn.Params {
+				if types.Identical(p.Type(), am) {
+					hasParam = true
+				}
+			}
+			if !hasParam {
+				continue
+			}
+			for _, ret := range returnsOf(fn) {
+				for _, pe := range phiEdges(retResults(ret)[0], ret.Block()) {
+					d := c.describe(ev, pe.Val, 0)
+					if d.Kind != "ints" {
+						continue
+					}
+					from := pe.From
+					if from == nil {
+						from = ret.Block()
+					}
+					k, ok := caseLabel(from, func(v ssa.Value) bool { return types.Identical(v.Type(), am) })
+					if !ok {
+						continue
+					}
+					name := c.constName(am, k.Value)
+					// marshalled by a caller?
+					marshalled := false
+					for _, caller := range c.Funcs {
+						for _, ci := range callsIn(caller) {
+							if calleeFullName(ci) != "encoding/asn1.Marshal" {
+								continue
+							}
+							arg := unwrapIface(ci.Common().Args[0])
+							if ex, isEx := arg.(*ssa.Extract); isEx {
+								arg = ex.Tuple
+							}
+							if call, isCall := arg.(*ssa.Call); isCall && call.Call.StaticCallee() == fn {
+								marshalled = true
+							}
+						}
+					}
+					for _, e := range refList("accessmethods") {
+						if strings.EqualFold(strings.TrimPrefix(name, "cert."), rs(e, "name")) {
+							found = true
+							r.Check(oidString(d.Ints) == rs(e, "oid") && marshalled, "access-method|"+rs(e, "name"), c.Pos(ret.Pos()), rs(e, "oid")+" ("+rs(e, "cite")+"), marshalled by the caller", sprintf("%s, marshalled: %v", oidString(d.Ints), marshalled))
+						}
+					}
+				}
+			}
+		}
+	}
 	if !found {
 		r.Undecided("anchor:access-method", "", "no OID under id-ad marshalled under an access-method case label")
 	}
